@@ -533,7 +533,14 @@ def campaign(ctx):
               ({"type": "integer", "minimum": 2 ** 53}, [2 ** 53 - 1, 2 ** 53, 2 ** 53 + 1]), ({"type": "integer", "exclusiveMaximum": 2 ** 53 + 1}, [2 ** 53, 2 ** 53 + 1]), ({"type": "string", "minLength": 2}, ["a", "ab"]),
               ({"type": "string", "maxLength": 2}, ["ab", "abc"]), ({"type": "string", "pattern": "^[a-z]+$"}, ["ab", "a1"]), ({"type": "string", "enum": ["a", "b"]}, ["a", "c"]),
               ({"type": "array", "items": {"type": "integer"}, "minItems": 2}, [[1], [1, 2]]), ({"type": "array", "items": {"type": "integer"}, "maxItems": 1}, [[1], [1, 2]]),
-              ({"type": "array", "items": {"type": "integer"}, "uniqueItems": True}, [[1, 2], [1, 1]])]
+              ({"type": "array", "items": {"type": "integer"}, "uniqueItems": True}, [[1, 2], [1, 1]]),
+              # keywords side by side: enum / const next to bounds, keywords of another type (JSON Schema ignores them), bounds of mixed number types, equal bounds
+              ({"type": "integer", "enum": [1, 10], "minimum": 5}, [1, 10]), ({"type": "string", "enum": ["a", "abc"], "maxLength": 2}, ["a", "abc"]),
+              ({"type": "string", "maxLength": 2, "maxItems": 5}, ["ab", "abc"]), ({"type": "string", "minLength": 2, "minItems": 0, "minimum": 0}, ["a", "ab"]),
+              ({"type": "array", "items": {"type": "integer"}, "maxItems": 2, "maxLength": 1}, [[1, 2], [1, 2, 3]]), ({"type": "integer", "maximum": 5, "maxLength": 0, "pattern": "^a"}, [5, 6]),
+              ({"type": "number", "minimum": 1, "maximum": 2.5}, [2, 3, 0.5]), ({"type": "number", "exclusiveMinimum": 0, "maximum": 0.5}, [0.25, 0, 1]),
+              ({"type": "integer", "minimum": 1, "maximum": 1}, [1, 2]), ({"type": "number", "minimum": 0.5, "maximum": 0.5}, [0.5, 1]),
+              ({"type": "array", "items": True}, [[1, "a"]]), ({"type": "array", "items": True, "maxItems": 1}, [[1], [1, 2]])]
     idx = 0
     for leaf, vals in LEAVES:
         other = {"type": "boolean"}
